@@ -126,6 +126,26 @@ def _has_public(targets):
     return any(n is not None and not n.startswith("_") for n in targets)
 
 
+def independent_row(obj):
+    """Expected code / LaTeX name of a listed member computed WITHOUT docs/printer_* and docs/miscellaneous: from the live
+    object's display_name / display_latex, for an IndexedSymbol its own `.index`, for a Function its declared arguments.
+    Returns None where no independent formula is known (operator objects, nested function arguments)."""
+    from symplyphysics.core.symbols.symbols import DimensionSymbol, Function, IndexedSymbol  # pylint: disable=import-outside-toplevel
+    if isinstance(obj, IndexedSymbol):
+        idx = str(obj.index)
+        return {"kind": "indexed", "base": obj.display_name, "index": idx, "code": f"{obj.display_name}[{idx}]",
+            "latex": f"{obj.display_latex}_{idx}"}
+    if isinstance(obj, Function):
+        args = list(obj.arguments or [])
+        if not args or any(isinstance(a, IndexedSymbol) or not isinstance(a, DimensionSymbol) or isinstance(a, Function) for a in args):
+            return {"kind": "function-prefix", "code_prefix": obj.display_name + "(", "latex_prefix": obj.display_latex}
+        return {"kind": "function", "code": f"{obj.display_name}({', '.join(a.display_name for a in args)})",
+            "latex": obj.display_latex + "\\left(" + ",".join(a.display_latex for a in args) + "\\right)"}
+    if isinstance(obj, DimensionSymbol):
+        return {"kind": "plain", "code": obj.display_name, "latex": obj.display_latex}
+    return None
+
+
 def mode_reference(spec, out):
     """Reference values computed WITHOUT docs/patch.py, docs/parse.py, docs/view.py, docs/build.py."""
     from sympy.core.parameters import global_parameters  # pylint: disable=import-outside-toplevel
@@ -210,6 +230,7 @@ def mode_reference(spec, out):
             try:
                 if isinstance(obj, (DimensionSymbol, Symbolic)):
                     m["row"] = {"code": code_str(obj), "latex": latex_str(obj), "dimension": print_dimension(obj.dimension)}
+                    m["row"]["independent"] = independent_row(obj)
             except Exception as e:  # pylint: disable=broad-except
                 m["print_error"] = f"{type(e).__name__}: {e}"[:300]
     out["reference"] = res
